@@ -1,6 +1,11 @@
 """C17 — constructs are stateless: results do not depend on call history or entry point."""
 import io
+import json
 import os
+import pickle
+import re
+import struct
+import subprocess
 import sys
 import tempfile
 import threading
@@ -13,7 +18,7 @@ from pbt import grammar as G
 from pbt import refmodel as R
 from pbt import values as V
 from pbt.mutate import mutated
-from pbt.harness import Failure, call, short
+from pbt.harness import Failure, call, jenc, short
 from pbt.props.c02 import lib_eq
 
 RULE = ("a pool of constructs realised from generated specs that share sub-construct objects (library singletons; one realised "
@@ -331,9 +336,13 @@ def campaign_singletons(ctx):
         con = G.realise(spec)
         ctx.record(case, True, ["singletons/use"])
         call(con.build, value, **params)
-        call(con.parse, data, **params)
+        p = call(con.parse, data, **params)
         call(con.sizeof, **params)
-        call(lambda: con.compile().parse(data, **params))
+        if p.ok:    # generated code omits checks: on input the interpreter rejects it may run for as long as a corrupted count says
+            call(lambda: con.compile().parse(data, **params))
+        b = call(con.build, value, **params)
+        if b.ok:
+            call(lambda: con.compile().parse(b.value, **params))
         for n in names:
             if snapshot(getattr(C, n)) != before[n]:
                 return Failure("C17/singleton-mutated/%s" % n, "module singleton construct.%s changed after use of %s" % (n, short(spec, 300)))
@@ -348,7 +357,153 @@ def campaign_singletons(ctx):
 campaign_singletons.shards = (1, 4)
 
 
-CAMPAIGNS = {"history": campaign_history, "threads": campaign_threads, "entry": campaign_entry, "singletons": campaign_singletons}
+# ---------------------------------------------------------------------------------------------
+# process-global state (class attributes, module caches): a call's result in a history == its result in a pristine process
+# ---------------------------------------------------------------------------------------------
+_HEX = re.compile(r"0x[0-9a-fA-F]+")
+
+
+def digest(o):
+    if o.ok:
+        return ("ok", _HEX.sub("0x?", repr(o.value)))
+    return ("exc", type(o.exc).__name__)
+
+
+def run_plan(req):
+    """runs inside a freshly forked child of the pristine zygote (pbt/zygote.py)"""
+    cons = [G.realise(spec) for spec, _ in req["specs"]]
+    out = {}
+    for ci in req["order"]:
+        idx, op, payload = req["calls"][ci]
+        out[ci] = digest(run_call(cons[idx], op, payload, req["specs"][idx][1]))
+    return out
+
+
+class Zygote:
+    def __init__(self):
+        env = dict(os.environ, PYTHONHASHSEED="0", PYTHONDONTWRITEBYTECODE="1")
+        self.p = subprocess.Popen([sys.executable, "-m", "pbt.zygote"], stdin=subprocess.PIPE, stdout=subprocess.PIPE,
+                                  cwd=os.path.dirname(os.path.dirname(os.path.dirname(os.path.abspath(__file__)))), env=env)
+
+    def ask(self, req):
+        data = pickle.dumps(req)
+        self.p.stdin.write(struct.pack(">I", len(data)) + data)
+        self.p.stdin.flush()
+        hdr = self.p.stdout.read(4)
+        if len(hdr) < 4:
+            raise RuntimeError("zygote died (exit %r)" % self.p.poll())
+        return pickle.loads(self.p.stdout.read(struct.unpack(">I", hdr)[0]))
+
+    def close(self):
+        try:
+            self.p.stdin.close()
+            self.p.wait(timeout=10)
+        except Exception:
+            self.p.kill()
+
+
+FAMILIES = ["rol", "xor", "bits", "bytesint", "pstr", "cstr", "aligned", "padded", "enum", "flagsenum", "compressed", "generated"]
+
+
+@st.composite
+def family_member(draw, fam):
+    """one construct of a parameterised family; parameters come from small ranges so that members share SOME of them"""
+    B1 = ["int", 1, False, "b", "alias"]
+    if fam == "rol":
+        return ["rol", draw(st.integers(-20, 20)), draw(st.integers(1, 6)), ["gbytes"]]
+    if fam == "xor":
+        key = draw(st.one_of(st.integers(0, 255), st.binary(min_size=1, max_size=4)))
+        return ["xor", key, ["gbytes"]]
+    if fam == "bits":
+        return ["bitwise", ["bits", 8 * draw(st.integers(1, 4)), draw(st.booleans()), draw(st.booleans())]]
+    if fam == "bytesint":
+        return ["int", draw(st.integers(1, 6)), draw(st.booleans()), draw(st.sampled_from(["b", "l"])), "bi"]
+    if fam == "pstr":
+        return ["pstr", draw(st.integers(2, 8)), draw(st.sampled_from(["ascii", "utf8", "utf_16_le", "utf_32_be"]))]
+    if fam == "cstr":
+        return ["cstr", draw(st.sampled_from(["ascii", "utf8", "utf_16_le", "utf_16_be", "utf_32_le"]))]
+    if fam == "aligned":
+        return ["aligned", draw(st.integers(2, 6)), ["bytes", draw(st.integers(0, 5))], draw(st.sampled_from([b"\x00", b"\xee"]))]
+    if fam == "padded":
+        return ["padded", draw(st.integers(4, 8)), ["varint"], draw(st.sampled_from([b"\x00", b"p"]))]
+    if fam == "enum":
+        vals = draw(st.lists(st.integers(0, 6), min_size=1, max_size=3, unique=True))
+        return ["enum", B1, [[l, v] for l, v in zip(V.LABELS, vals)], "kw"]
+    if fam == "flagsenum":
+        vals = draw(st.lists(st.sampled_from([1, 2, 4, 8, 3, 12]), min_size=1, max_size=3, unique=True))
+        return ["flagsenum", B1, [[l, v] for l, v in zip(V.LABELS, vals)], "kw"]
+    if fam == "compressed":
+        return ["prefixed", B1, ["compressed", ["gbytes"], draw(st.sampled_from(["zlib", "bzip2", "lzma"])), draw(st.sampled_from([None, 1, 9]))], False]      # (gzip stamps the wall clock into its header)
+    raise ValueError(fam)
+
+
+@st.composite
+def globalstate_cases(draw):
+    fam = draw(st.sampled_from(FAMILIES))
+    specs = []
+    if fam == "generated":
+        for _ in range(draw(st.integers(2, 3))):
+            spec, params, value = draw(V.cases(frag=FRAG, depth=2))
+            specs.append([spec, params, value])
+    else:
+        for _ in range(draw(st.integers(2, 5))):
+            spec = draw(family_member(fam))
+            specs.append([spec, {}, None])
+    calls = []
+    for i, (spec, params, value) in enumerate(specs):
+        if value is None and fam != "generated":
+            value = V.gen_value(draw, spec, R.top_scope(params, "build"))
+            specs[i][2] = value
+        try:
+            data = R.ref_build(spec, value, params)
+        except (R.Reject, R.ForeignError):
+            data = None
+        for _ in range(draw(st.integers(1, 2))):
+            calls.append([i, "build", value])
+        for _ in range(draw(st.integers(1, 2))):
+            payload = data if data is not None and draw(st.integers(0, 3)) else draw(st.sampled_from([b"", bytes(range(1, 13)), bytes(range(0x80, 0x80 + 24)), bytes(60), b"\x12\x34\x56\x78" * 6]))
+            calls.append([i, "parse", payload])
+    order = draw(st.permutations(list(range(len(calls)))))
+    return [fam, [[s, p] for s, p, _ in specs], calls, list(order)]
+
+
+def globalstate_oracle(ctx, zyg):
+    def oracle(case):
+        fam, specs, calls, order = case
+        req = dict(specs=[(s, p) for s, p in specs], calls=[tuple(c) for c in calls], order=list(order))
+        together = zyg.ask(req)
+        if not isinstance(together, dict):
+            ctx.tally("globalstate/inconclusive-%s" % together[0])
+            return None
+        distinct = len({json.dumps(jenc(s), sort_keys=True) for s, _ in specs})
+        ctx.record(case, distinct > 1, ["globalstate/" + fam, "globalstate/calls=%d" % len(calls)])
+        for pos, ci in enumerate(order):
+            if pos == 0:
+                continue        # the first call of the history ran in a pristine process already
+            alone = zyg.ask(dict(req, order=[ci]))
+            if not isinstance(alone, dict):
+                ctx.tally("globalstate/inconclusive-%s" % alone[0])
+                continue
+            if alone[ci] != together[ci]:
+                idx, op, payload = calls[ci]
+                return Failure("C17/global-state/%s-depends-on-history" % op,
+                               "%s(%s) on %s gives %s in a process that never used the library, but %s after %d earlier calls on other constructs | specs=%s order=%s" % (
+                                   op, short(payload, 80), short(specs[idx][0], 200), short(alone[ci], 200), short(together[ci], 200), pos, short([s for s, _ in specs], 500), order))
+        return None
+    return oracle
+
+
+def campaign_globalstate(ctx):
+    zyg = Zygote()
+    try:
+        ctx.search(globalstate_cases(), globalstate_oracle(ctx, zyg), ctx.budget(600, 12000), name="globalstate")
+    finally:
+        zyg.close()
+campaign_globalstate.shards = (4, 16)
+
+
+CAMPAIGNS = {"history": campaign_history, "threads": campaign_threads, "entry": campaign_entry, "singletons": campaign_singletons,
+             "globalstate": campaign_globalstate}
 
 
 def replay(campaign, case):
@@ -360,4 +515,11 @@ def replay(campaign, case):
         return history_oracle(c)(case)
     if campaign == "entry":
         return entry_oracle(c)(case)
+    if campaign == "globalstate":
+        c.tally = lambda *a, **k: None
+        zyg = Zygote()
+        try:
+            return globalstate_oracle(c, zyg)(case)
+        finally:
+            zyg.close()
     return None
